@@ -320,7 +320,7 @@ class ForwardScheduler(IScheduler):
             if _task.end is None:
                 if is_leaf:
                     left_hours = max(_task.estimate - _task.spent, 0)
-                    start = max(_task.start, datetime.now())
+                    start = max(_task.start, datetime.now(), max_predecessor_ends)
                     _task.end = max(
                         self.__shift_by_resource_usage_and_calendar(
                             resource, resource_usage, start, _task, left_hours
